@@ -349,7 +349,7 @@ class Interp(Engine):
                 if isinstance(n, ast.Call):
                     f = n.func
                     ok = (isinstance(f, ast.Name) and f.id in ("len", "int", "str", "ord", "chr")) or \
-                         (isinstance(f, ast.Attribute) and f.attr in ("startswith", "endswith", "lower", "upper"))
+                         (isinstance(f, ast.Attribute) and f.attr in ("startswith", "endswith", "lower", "upper", "split"))
                     if not ok:
                         return False
                 if isinstance(n, (ast.Lambda, ast.ListComp, ast.GeneratorExp, ast.Yield)):
